@@ -27,6 +27,10 @@
 #include "world_builder/world.h"
 #include "world_builder/grains.h"
 #include "world_builder/verif_hooks.h"
+#include "world_builder/utilities.h"
+#include "world_builder/kd_tree.h"
+#include "world_builder/objects/bezier_curve.h"
+#include "world_builder/coordinate_systems/spherical.h"
 
 using namespace WorldBuilder;
 
@@ -145,6 +149,85 @@ int main()
                 }
               worlds[id] = std::move(w);
               std::cout << "ok\n";
+            }
+          else if (cmd == "kbezsample")
+            {
+              // kbezsample <sph> <n> x0 y0 … px py <m>: minimum over m+1 samples per piece of the distance from p to the curve  -> ok 3 <min dist> <piece> <t>
+              auto rd = [&]() { std::string t; ss >> t; return unhex(t); };
+              int sphf; size_t n; ss >> sphf >> n;
+              const CoordinateSystem cs = sphf ? spherical : cartesian;
+              std::vector<Point<2>> pts;
+              for (size_t i = 0; i < n; ++i) { const double x = rd(), y = rd(); pts.emplace_back(x, y, cs); }
+              const double px = rd(), py = rd();
+              size_t m; ss >> m;
+              Objects::BezierCurve bz(pts);
+              double best = std::numeric_limits<double>::infinity(), bt = 0; size_t bi = 0;
+              for (size_t i = 0; i + 1 < n; ++i)
+                for (size_t k = 0; k <= m; ++k)
+                  {
+                    const double t = static_cast<double>(k) / static_cast<double>(m);
+                    const Point<2> q = bz(i, t);
+                    double d;
+                    if (sphf)
+                      {
+                        const double sl = std::sin((q[1]-py)*0.5), so = std::sin((q[0]-px)*0.5);
+                        d = 2.0 * std::asin(std::sqrt(sl*sl + so*so*std::cos(py)*std::cos(q[1])));
+                      }
+                    else d = std::sqrt((q[0]-px)*(q[0]-px) + (q[1]-py)*(q[1]-py));
+                    if (d < best) { best = d; bi = i; bt = t; }
+                  }
+              std::cout << "ok 3 " << hex(best) << " " << hex(static_cast<double>(bi)) << " " << hex(bt) << "\n";
+            }
+          else if (cmd == "kpoly" || cmd == "kkd" || cmd == "kbez" || cmd == "kconv" || cmd == "kgc")
+            {
+              // direct kernel calls:  kpoly <sph> <n> x0 y0 … px py | kkd <n> x0 y0 … px py | kbez <sph> <n> x0 y0 … px py | kconv x y z | kgc r lon1 lat1 lon2 lat2
+              auto rd = [&]() { std::string t; ss >> t; return unhex(t); };
+              std::vector<double> out;
+              if (cmd == "kconv")
+                {
+                  const double x = rd(), y = rd(), z = rd();
+                  const std::array<double,3> sc = Utilities::cartesian_to_spherical_coordinates(Point<3>(x, y, z, cartesian));
+                  const Point<3> back = Utilities::spherical_to_cartesian_coordinates(sc);
+                  out = {sc[0], sc[1], sc[2], back[0], back[1], back[2]};
+                }
+              else if (cmd == "kgc")
+                {
+                  const double r = rd(), lo1 = rd(), la1 = rd(), lo2 = rd(), la2 = rd();
+                  CoordinateSystems::Spherical sph(nullptr);
+                  out = {sph.distance_between_points_at_same_depth(Point<3>(r, lo1, la1, spherical), Point<3>(r, lo2, la2, spherical))};
+                }
+              else
+                {
+                  int sphf = 0; size_t n;
+                  if (cmd != "kkd") ss >> sphf;
+                  ss >> n;
+                  const CoordinateSystem cs = sphf ? spherical : cartesian;
+                  std::vector<Point<2>> pts;
+                  for (size_t i = 0; i < n; ++i) { const double x = rd(), y = rd(); pts.emplace_back(x, y, cs); }
+                  const double px = rd(), py = rd();
+                  const Point<2> p(px, py, cs);
+                  if (cmd == "kpoly")
+                    out = {Utilities::polygon_contains_point(pts, p) ? 1.0 : 0.0};
+                  else if (cmd == "kkd")
+                    {
+                      std::vector<KDTree::Node> nodes;
+                      for (size_t i = 0; i < n; ++i) nodes.emplace_back(i, pts[i][0], pts[i][1]);
+                      KDTree::KDTree tree(nodes);
+                      tree.create_tree(0, nodes.size()-1, false);
+                      const KDTree::IndexDistances ids = tree.find_closest_points(p);
+                      const KDTree::IndexDistance id = tree.find_closest_point(p);
+                      out = {ids.min_distance, id.distance, static_cast<double>(ids.vector.size())};
+                    }
+                  else
+                    {
+                      Objects::BezierCurve bz(pts);
+                      const Objects::ClosestPointOnCurve c = bz.closest_point_on_curve_segment(p);
+                      out = {c.distance, c.parametric_fraction, static_cast<double>(c.index), c.point[0], c.point[1], c.normal[0], c.normal[1]};
+                    }
+                }
+              std::cout << "ok " << out.size();
+              for (double v : out) std::cout << " " << hex(v);
+              std::cout << "\n";
             }
           else if (cmd == "free")
             {
